@@ -249,7 +249,17 @@ voc_read_header	(SF_PRIVATE *psf)
 		psf_log_printf (psf, " Sound Data : %d\n  sr   : %d => %dHz\n  comp : %d\n",
 								size, rate_byte, psf->sf.samplerate, compression) ;
 
-		if (offset + size - 1 > psf->filelength)
+		psf->dataoffset = offset ;
+		psf->dataend	= psf->filelength - 1 ;
+
+		if (offset + size - 2 == psf->filelength)
+		{	/* Hack for reading files produced using
+			** sf_command (SFC_UPDATE_HEADER_NOW).
+			*/
+			psf_log_printf (psf, "Missing zero byte at end of file.\n") ;
+			psf->dataend = 0 ;
+			}
+		else if (offset + size - 1 > psf->filelength)
 		{	psf_log_printf (psf, "Seems to be a truncated file.\n") ;
 			psf_log_printf (psf, "offset: %d    size: %d    sum: %d    filelength: %D\n", offset, size, offset + size, psf->filelength) ;
 			return SFE_VOC_BAD_SECTIONS ;
@@ -259,9 +269,6 @@ voc_read_header	(SF_PRIVATE *psf)
 			psf_log_printf (psf, "offset: %d    size: %d    sum: %d    filelength: %D\n", offset, size, offset + size, psf->filelength) ;
 			return SFE_VOC_BAD_SECTIONS ;
 			} ;
-
-		psf->dataoffset = offset ;
-		psf->dataend	= psf->filelength - 1 ;
 
 		psf->sf.channels = 1 ;
 		psf->bytewidth = 1 ;
@@ -312,7 +319,17 @@ voc_read_header	(SF_PRIVATE *psf)
 								"  comp   : %d\n", size, rate_byte, compression) ;
 
 
-		if (offset + size - 1 > psf->filelength)
+		psf->dataoffset = offset ;
+		psf->dataend = psf->filelength - 1 ;
+
+		if (offset + size - 2 == psf->filelength)
+		{	/* Hack for reading files produced using
+			** sf_command (SFC_UPDATE_HEADER_NOW).
+			*/
+			psf_log_printf (psf, "Missing zero byte at end of file.\n") ;
+			psf->dataend = 0 ;
+			}
+		else if (offset + size - 1 > psf->filelength)
 		{	psf_log_printf (psf, "Seems to be a truncated file.\n") ;
 			psf_log_printf (psf, "offset: %d    size: %d    sum: %d    filelength: %D\n", offset, size, offset + size, psf->filelength) ;
 			return SFE_VOC_BAD_SECTIONS ;
@@ -322,9 +339,6 @@ voc_read_header	(SF_PRIVATE *psf)
 			psf_log_printf (psf, "offset: %d    size: %d    sum: %d    filelength: %D\n", offset, size, offset + size, psf->filelength) ;
 			return SFE_VOC_BAD_SECTIONS ;
 			} ;
-
-		psf->dataoffset = offset ;
-		psf->dataend = psf->filelength - 1 ;
 
 		psf->bytewidth = 1 ;
 
@@ -456,8 +470,8 @@ voc_write_header (SF_PRIVATE *psf, int calc_length)
 	{	/* samplerate = 1000000 / (256 - rate_const) ; */
 		rate_const = 256 - ((psf->sf.samplerate > 0) ? 1000000 / psf->sf.samplerate : 0) ;
 
-		/* First type marker, length, rate_const and compression */
-		psf_binheader_writef (psf, "e1311", BHW1 (VOC_SOUND_DATA), BHW3 ((int) (psf->datalength + 1)), BHW1 (rate_const), BHW1 (0)) ;
+		/* First type marker, length (rate_const, compression and the audio data), rate_const and compression */
+		psf_binheader_writef (psf, "e1311", BHW1 (VOC_SOUND_DATA), BHW3 ((int) (psf->datalength + 2)), BHW1 (rate_const), BHW1 (0)) ;
 		}
 	else if (subformat == SF_FORMAT_PCM_U8 && psf->sf.channels == 2)
 	{	/* sample_rate = 128000000 / (65536 - rate_short) ; */
@@ -474,7 +488,7 @@ voc_write_header (SF_PRIVATE *psf, int calc_length)
 		/*	Now write the VOC_SOUND_DATA section
 		** 		marker, length, rate_const and compression
 		*/
-		psf_binheader_writef (psf, "e1311", BHW1 (VOC_SOUND_DATA), BHW3 ((int) (psf->datalength + 1)), BHW1 (rate_const), BHW1 (0)) ;
+		psf_binheader_writef (psf, "e1311", BHW1 (VOC_SOUND_DATA), BHW3 ((int) (psf->datalength + 2)), BHW1 (rate_const), BHW1 (0)) ;
 		}
 	else
 	{	int length ;
@@ -535,8 +549,15 @@ voc_close	(SF_PRIVATE *psf)
 		*/
 		unsigned char byte = VOC_TERMINATOR ;
 
-
-		psf_fseek (psf, 0, SEEK_END) ;
+		/*	The terminator goes where the audio data ends. Record that
+		**	offset so that voc_write_header does not count the terminator
+		**	as audio data, and do not append a second terminator to a
+		**	file that was opened SFM_RDWR and did not grow.
+		*/
+		if (psf->dataend > 0)
+			psf_fseek (psf, psf->dataend, SEEK_SET) ;
+		else
+			psf->dataend = psf_fseek (psf, 0, SEEK_END) ;
 
 		/* Write terminator */
 		psf_fwrite (&byte, 1, 1, psf) ;
